@@ -195,6 +195,22 @@ Proof.
     destruct (length M); reflexivity.
 Qed.
 
+Lemma readdir_page_raw s i h n cnt nm :
+  nth_error (mhandles s) i = Some h -> get_node s (href h) = Some n -> ndir n = true -> 0 <= hrdc h ->
+  let M := skipn (Z.to_nat (hrdc h)) (dir_infos s n) in
+  let po := page_out (length M) cnt in
+  m_step_raw s (rdop nm i cnt) =
+    (set_handle s i (set_rdc h (hrdc h + Z.of_nat po)),
+     page_res nm (firstn po M) (if (0 <? cnt) && (Nat.eqb (length M) 0) then Some (E KEOF) else None)).
+Proof.
+  intros Hh Hn Hd Hc M po.
+  pose proof (m_readdir_eq s i h n cnt Hn Hd Hc) as E. cbv zeta in E. fold M in E. fold po in E.
+  assert (Hnil : (0 <? cnt) && Nat.eqb (length M) 0 = true -> firstn po M = []).
+  { intros Ht. apply andb_true_iff in Ht as [_ Ht]. apply Nat.eqb_eq in Ht. destruct M; [now rewrite firstn_nil | discriminate]. }
+  destruct nm; cbn [rdop m_step_raw]; unfold m_hop; rewrite Hh, Hn, E;
+    destruct ((0 <? cnt) && Nat.eqb (length M) 0) eqn:Ee; try reflexivity; rewrite (Hnil eq_refl); reflexivity.
+Qed.
+
 Lemma readdir_page s i h n cnt nm :
   nth_error (mhandles s) i = Some h -> get_node s (href h) = Some n -> ndir n = true -> 0 <= hrdc h ->
   let M := skipn (Z.to_nat (hrdc h)) (dir_infos s n) in
@@ -204,15 +220,30 @@ Lemma readdir_page s i h n cnt nm :
      page_res nm (firstn po M) (if (0 <? cnt) && (Nat.eqb (length M) 0) then Some (E KEOF) else None)).
 Proof.
   intros Hh Hn Hd Hc M po. unfold m_step.
-  assert (Hraw : m_step_raw s (rdop nm i cnt) =
-    (set_handle s i (set_rdc h (hrdc h + Z.of_nat po)),
-     page_res nm (firstn po M) (if (0 <? cnt) && (Nat.eqb (length M) 0) then Some (E KEOF) else None))).
-  { pose proof (m_readdir_eq s i h n cnt Hn Hd Hc) as E. cbv zeta in E. fold M in E. fold po in E.
-    assert (Hnil : (0 <? cnt) && Nat.eqb (length M) 0 = true -> firstn po M = []).
-    { intros Ht. apply andb_true_iff in Ht as [_ Ht]. apply Nat.eqb_eq in Ht. destruct M; [now rewrite firstn_nil | discriminate]. }
-    destruct nm; cbn [rdop m_step_raw]; unfold m_hop; rewrite Hh, Hn, E;
-      destruct ((0 <? cnt) && Nat.eqb (length M) 0) eqn:Ee; try reflexivity; rewrite (Hnil eq_refl); reflexivity. }
-  rewrite Hraw. reflexivity.
+  rewrite (readdir_page_raw s i h n cnt nm Hh Hn Hd Hc). reflexivity.
+Qed.
+
+(* two strictly ascending lists with the same elements are equal *)
+Lemma sorted_unique (l1 : list str) : forall l2,
+  StronglySorted (fun a b => bltb a b = true) l1 -> StronglySorted (fun a b => bltb a b = true) l2 ->
+  (forall x, In x l1 <-> In x l2) -> l1 = l2.
+Proof.
+  induction l1 as [|a r1 IH]; intros l2 S1 S2 Hm.
+  - destruct l2 as [|b r2]; [reflexivity|]. exfalso. apply (Hm b). now left.
+  - destruct l2 as [|b r2]; [exfalso; apply (Hm a); now left|].
+    inversion S1 as [|? ? S1' F1]; subst. inversion S2 as [|? ? S2' F2]; subst. rewrite Forall_forall in F1, F2.
+    assert (Eab : a = b).
+    { destruct (proj1 (Hm a) (or_introl eq_refl)) as [E|Ha]; [now symmetry|].
+      destruct (proj2 (Hm b) (or_introl eq_refl)) as [E|Hb]; [exact E|].
+      pose proof (F2 a Ha) as X1. pose proof (F1 b Hb) as X2. apply bltb_asym in X1. congruence. }
+    subst b. f_equal. apply IH; auto. intros x. split; intros Hx.
+    + destruct (proj1 (Hm x) (or_intror Hx)) as [E|Hx2]; [|exact Hx2]. subst x. pose proof (F1 a Hx) as X. now rewrite bltb_irrefl in X.
+    + destruct (proj2 (Hm x) (or_intror Hx)) as [E|Hx2]; [|exact Hx2]. subst x. pose proof (F2 a Hx) as X. now rewrite bltb_irrefl in X.
+Qed.
+
+Lemma is_listing_unique s d l1 l2 : is_listing s d l1 -> is_listing s d l2 -> l1 = l2.
+Proof.
+  intros [E1 S1] [E2 S2]. apply sorted_unique; auto. intros x. now rewrite E1, E2.
 Qed.
 
 (* ---------- pages partition the listing ---------- *)
